@@ -39,7 +39,7 @@ def bound_text(tier):
 
 
 def knobs(tier):
-    return {"cap": 40 if tier == "quick" else 300}
+    return {"cap": 44 if tier == "quick" else 200}
 
 
 def extra_families():
